@@ -94,8 +94,13 @@ RUNS += [
     dict(name="timer-k4-d3", prim="timer", cfg="4 3 3", flavours=["local", "sync"],
          quick=dict(explore=0), thorough=dict(explore=8000000), corpus=False),
 ]
+RUNS += [
+    # delay(d) boundary durations (tmax = 0 switches the alphabet to Delay ops), clock fixed at 0 and preset by the corpus
+    dict(name="timer-delay", prim="timer", cfg="2 1 0", flavours=["local", "sync"],
+         quick=dict(explore=300000), thorough=dict(explore=300000)),
+]
 STATE_RUNS = ["state-local", "state-shared", "state-k3"]
-TIMER_RUNS = ["timer-k3", "timer-k4", "timer-k4-d3"]
+TIMER_RUNS = ["timer-k3", "timer-k4", "timer-k4-d3", "timer-delay"]
 # ring buffers: cfg = kind (0 array, 1 fixed heap, 2 growing heap), capacity, debug assertions, malformed calls too
 RB_RUNS = []
 for kind in (0, 1, 2):
@@ -116,31 +121,72 @@ RUNS += [
 ]
 L0_RUNS = ["dlist-5", "dlist-6", "pheap-6", "pheap-eq", "pheap-7"]
 
+RUNS += [
+    # streams: cfg has a 6th field = number of streams (stream k uses receive slot kr-1-k)
+    dict(name="mpmc-stream-c1", prim="mpmc", cfg="2 1 1 0 0 1", flavours=["local", "sync"], quick=dict(explore=1000000), thorough=dict(explore=1000000)),
+    dict(name="mpmc-stream-c0", prim="mpmc", cfg="2 1 0 0 0 1", flavours=["local"], quick=dict(explore=1000000), thorough=dict(explore=1000000)),
+    dict(name="mpmc-sstream-c1", prim="mpmc", cfg="1 1 1 1 2 1", flavours=["shared"], quick=dict(explore=1000000), thorough=dict(explore=1000000)),
+    dict(name="mpmc-sstream-c0", prim="mpmc", cfg="2 1 0 1 2 1", flavours=["shared"], quick=dict(explore=1000000), thorough=dict(explore=1000000)),
+]
 MPMC_RUNS = ["mpmc-c0", "mpmc-c1", "mpmc-c2", "mpmc-c1-22", "mpmc-c2-22", "mpmc-shared-c0", "mpmc-shared-c1", "mpmc-shared-c1-h3"]
 ONESHOT_RUNS = ["oneshot-local", "bcast-local", "oneshot-shared", "bcast-shared"]
 MUTEX_RUNS = ["mutex-k3-unfair", "mutex-k3-fair", "mutex-k4-unfair", "mutex-k4-fair"]
 SEM_RUNS = ["sem-k2-unfair", "sem-k2-fair", "sem-k2-unfair-p1", "sem-k2-fair-p1", "sem-k3-unfair", "sem-k3-fair"]
 
 # ---------------------------------------------------------------------------------------------
+ALL_RUNS_FOR_PROTOCOL = None
+
 PROPS = {
+    "C01": dict(
+        level="proof", coq_files=["Properties/C01.v", "Properties/C20.v"],
+        theorems={"Properties/C01.v": ["C01_event_queue", "C01_event_no_panic", "C01_mutex_queue", "C01_mutex_no_panic",
+                                       "C01_semaphore_queue", "C01_semaphore_no_panic", "C01_mpmc_queues", "C01_mpmc_no_panic",
+                                       "C01_oneshot_queue", "C01_oneshot_no_panic", "C01_state_queue", "C01_state_no_panic",
+                                       "C01_timer_heap", "C01_timer_no_panic"],
+                  "Properties/C20.v": ["C20_list_refines_deque", "C20_heap_refines_tree"]},
+        prims=["event", "mutex", "semaphore", "mpmc", "oneshot", "state", "timer"], keys=["q", "r"], assumptions=[SCHED_NOTE],
+        level_text="For each of the seven primitive models, theorem over every reachable state (any history, any number of futures, fair/unfair, every capacity, borrowed/shared handles): the wait queue (timer: the heap) holds exactly the alive, non-terminated futures in the linked state, each once; no contract-respecting call returns a panic or leaves the intrusive-container protocol (add of a linked node / removal of a non-member). Combined with C20 (pointer-level list and heap are memory-safe and exact under exactly that protocol) this is the 'no access to a dropped future' claim. Correspondence: after EVERY operation of every explored history the hook snapshot of the real queue (node addresses mapped to live futures; an address of a dropped future prints as DANGLING) must equal the model's queue, and no call may panic or crash.",
+        level_note="Rust aliasing-model UB is not expressible. The harness keeps dropped futures' memory mapped so that a dangling entry is observed rather than crashing. " + SCHED_NOTE,
+    ),
+    "C17": dict(
+        level="proof", coq_files=["Properties/C17.v", "Properties/C17s.v"],
+        theorems={"Properties/C17.v": ["C17_event", "C17_event_repoll", "C17_mutex", "C17_mutex_repoll", "C17_semaphore", "C17_semaphore_repoll",
+                                       "C17_mpmc_recv", "C17_mpmc_send", "C17_mpmc_repoll", "C17_oneshot", "C17_oneshot_repoll",
+                                       "C17_state", "C17_state_repoll", "C17_timer", "C17_timer_repoll"],
+                  "Properties/C17s.v": ["C17s_terminated_stays", "C17s_item_is_receive"]},
+        prims=["event", "mutex", "semaphore", "mpmc", "oneshot", "state", "timer"], runs=["mpmc-stream-c1", "mpmc-stream-c0", "mpmc-sstream-c1", "mpmc-sstream-c0"],
+        keys=["t", "r"],
+        level_text="Theorems for all seven models: a future is created non-terminated; a legal step changes the is_terminated flag of a surviving future only by setting it, exactly when that future's poll returns a Ready-type result (or cancel() on a send future); polls are legal only while unset, hence Ready at most once; a poll after completion panics and changes nothing. Streams (ChannelStream / SharedStream) are modelled as composition of receive-future steps: an item is exactly the result of the receive poll, a terminated stream returns None forever without touching the channel. Correspondence: is_terminated() of every live future and stream after every operation of every explored history, malformed re-polls expect a panic.",
+        level_note="Kernel-checked on the models; the stream composition itself (poll_next = create-if-absent, poll, drop-if-ready) is tied to the code by exhaustive correspondence runs with one stream next to explicit futures.",
+    ),
+    "C18": dict(
+        level="other", coq_files=["Properties/C18.v"],
+        theorems={"Properties/C18.v": ["C18_alloc_zero", "C18_store_domain_preserved"]},
+        prims=["event", "mutex", "semaphore", "mpmc", "oneshot", "state", "timer"], keys=["a"],
+        exclude_flavours=["growing", "shared-growing"],
+        explanation="Thin theorem (every model step reports zero allocations; the pointer-level containers never change the domain of the cell store) + the deciding observable: a counting #[global_allocator] in the harness, armed only inside library calls (id-wakers, tagged payloads and the harness bookkeeping allocate nothing while armed), whose per-step allocation+free count is compared with the model's zero on every step of every history explored for the other properties, for local, parking_lot and shared flavours. GrowingHeapBuf runs are excluded from the 'a' comparison (documented exception); creation/teardown of primitives and panicking calls are outside the claim.",
+        level_text="Allocation observable in the model/implementation correspondence, backed by a thin Coq theorem; see explanation.",
+        level_note="A proof cannot see an allocation the model does not mention; detection rests on the allocator observable.",
+        technique="Coq theorem (thin) + counting global allocator compared on every step of the correspondence runs",
+    ),
     "C02": dict(
         level="proof", coq_files=["Properties/C02.v"],
         theorems={"Properties/C02.v": ["C02_guards_le_1", "C02_grant_only_when_free", "C02_guard_count", "C02_is_locked_exact"]},
-        runs=MUTEX_RUNS, keys=["r", "p"], assumptions=[SCHED_NOTE],
+        runs=MUTEX_RUNS, keys=["r", "p"], assumptions=[SCHED_NOTE], monitor=dict(id=2, runs=["mutex-k3-unfair", "mutex-k3-fair"]),
         level_text="Theorems over every reachable state of the mutex model (any number of lock futures, both fairness modes): guards <= 1, locked iff one guard, a poll/try_lock completes only from a guard-free state and creates exactly one, is_locked() exact. Model tied to the crate by exhaustive model-guided exploration (k=3 fixpoint, local and parking_lot flavours) comparing results, is_locked() and the number of guard objects the harness holds.",
         level_note="Exclusive access to T follows from guards<=1 only under the atomicity assumptions (lock_api mutual exclusion; all state inside the lock). " + SCHED_NOTE,
     ),
     "C03": dict(
         level="proof", coq_files=["Properties/C03.v"],
         theorems={"Properties/C03.v": ["C03_woken_when_free", "C03_pending_is_arrivals", "C03_progress"]},
-        runs=MUTEX_RUNS, keys=["r", "w"], assumptions=[SCHED_NOTE],
+        runs=MUTEX_RUNS, keys=["r", "w"], assumptions=[SCHED_NOTE], monitor=dict(id=3, runs=["mutex-k3-unfair", "mutex-k3-fair"]),
         level_text="Theorem over all histories: whenever the mutex is free and lock futures are pending, a pending future (fair: the oldest in trace-recomputed arrival order) has been woken since its last poll through the waker of that poll (tracker defined on the observable trace); a notified future polled while free succeeds. Correspondence compares results and ordered wake lists on every transition of the k=3 state space with waker swaps.",
         level_note="Liveness ('eventually completes') is given as the safety invariant + one-step progress lemma, not as a temporal theorem. " + SCHED_NOTE,
     ),
     "C04": dict(
         level="proof", coq_files=["Properties/C04.v"],
         theorems={"Properties/C04.v": ["C04_fifo", "C04_queue_is_arrivals", "C04_drop_is_filter"]},
-        runs=["mutex-k3-fair", "mutex-k4-fair"], keys=["r"],
+        runs=["mutex-k3-fair", "mutex-k4-fair"], keys=["r"], monitor=dict(id=4, runs=["mutex-k3-fair"]),
         level_text="Theorem over all fair-mode histories: a lock future completes only if it is the oldest pending one in the arrival order recomputed from the trace, try_lock only if nobody is pending; the wait queue equals that arrival order; drop = filter. Correspondence compares every result on the fair state space.",
         level_note="Kernel-checked on the Gallina model; tie to the code by differential execution.",
     ),
@@ -198,7 +244,7 @@ PROPS = {
                   "Properties/C11b.v": ["C11b_close_status", "C11b_closed_monotone", "C11b_implicit_close", "C11b_refuted_pinned"],
                   "Properties/C13.v": ["C11c_close_status", "C11c_closed_monotone", "C11c_implicit_close"]},
         runs=MPMC_RUNS + ONESHOT_RUNS + STATE_RUNS, keys=["r", "w", "p", "v"], assumptions=[SCHED_NOTE],
-        monitor=dict(id=11, runs=["bcast-shared", "oneshot-shared", "state-shared"]),
+        monitor=dict(id=11, runs=["bcast-shared", "oneshot-shared", "state-shared", "mpmc-shared-c1", "mpmc-shared-c0"]),
         level_text="Theorems for mpmc, oneshot, oneshot-broadcast and state-broadcast models: close is permanent/idempotent (NewlyClosed once), sends after close fail returning the caller's value, every queued future is woken and unlinked, receivers drain the buffer in order then None/Closed; implicit close: for every interleaving of the atomic sections of clone/drop of any number of handles, without explicit close the channel is closed iff a side has no handle left (never while both sides have one); last mpmc receiver clears the buffer; plus a machine-checked refutation for the pre-repair broadcast receiver (finding D3). Correspondence on close status, results, wakes, value movements over all clone/drop orders of up to 3 handles.",
         level_note="Handle-count atomics' memory orderings are assumed; interleavings are of whole atomic sections. " + SCHED_NOTE,
     ),
@@ -219,7 +265,7 @@ PROPS = {
     "C15": dict(
         level="proof", coq_files=["Properties/C15.v"],
         theorems={"Properties/C15.v": ["C15_protocol", "C15_heap_exact", "C15_pheap_insert", "C15_pheap_remove", "C15_pheap_min", "C15_delay_saturating"]},
-        runs=TIMER_RUNS, keys=["r", "w", "p"], monitor=dict(id=15, runs=["timer-k3", "timer-k4"]), assumptions=[SCHED_NOTE, "Clock::now() is monotone"],
+        runs=TIMER_RUNS, keys=["r", "w", "p"], monitor=dict(id=15, runs=["timer-k3", "timer-delay"]), assumptions=[SCHED_NOTE, "Clock::now() is monotone"],
         level_text="Theorem over all histories (any number of timers, duplicate deadlines): the timer monitor holds on the trace (never early; check_expirations wakes all and only the due registered futures through latest wakers in non-decreasing deadline order; next_expiration = min registered deadline; delay saturates); tree-level pairing heap theorems (permutation of elements, heap order preserved, root = minimum); the heap holds exactly the registered futures. The model reproduces the crate's heap SHAPE: correspondence compares the pre-order heap snapshot (hook), results, probes and ordered wakes on every transition of k=4 spaces.",
         level_note="Wake order among equal deadlines is compared exactly (it is determined by the pairing heap's tie-breaking, which the model reproduces). " + SCHED_NOTE,
     ),
